@@ -616,6 +616,7 @@ fn run_api(c: &Case, sandbox_root: &Path, o: &mut String) {
             "define" => parse_define(l, &mut ctx.defines),
             "cleardefines" => ctx.defines.clear(),
             "incdir" => ctx.incdirs.push(PathBuf::from(unhex_str(&l[1]))),
+            "clearincdirs" => ctx.incdirs.clear(),
             "opt" => {
                 let v = l[2] == "1";
                 match l[1].as_str() {
